@@ -736,6 +736,11 @@ func main() {
 	setN("gf_reply_proto", r, ok, 17)
 	r, ok = cmpLiteral("lib/server/leaseopts/leaseopts.go", "ParseConfig", "ld", token.LSS)
 	setN("gf_server_min_lease_ns", r, ok, 60e9)
+	// C18: limits of what one DHCP option can carry (named constants introduced by the repair of F5c;
+	// on a tree without them the defaults are used and the names are listed as missing)
+	loadConsts("lib/server/leaseopts/leaseopts.go")
+	named("lib/server/leaseopts", "maxOptionLen", 255)
+	named("lib/server/leaseopts", "maxLeaseSeconds", 4294967295)
 	r, ok = cmpLiteral("lib/client/verify/verifyer.go", "verifyCommon", "IPAddressLeaseDuration", token.LSS)
 	setN("gf_client_min_lease_ns", r, ok, 60e9)
 	r, ok = compositeField("lib/client/msgtmpl/request.go", "request", "SrcPort")
